@@ -520,6 +520,12 @@ def bounded_values():
     tried += 1
     if o1 == o2 or o2 == o1:
         bad.append(('different classes compare equal', repr(o1), repr(o2)))
+    # objects whose xor-of-field-hashes collide (both 0) are still different values - also after both were hashed
+    c1, c2 = g.Pair('x', 'x'), g.Pair('y', 'y')
+    hash(c1), hash(c2)
+    tried += 1
+    if c1 == c2 or hash(c1) != 0 or hash(c2) != 0:
+        bad.append(('objects with colliding hashes compare equal', repr(c1), repr(c2)))
     ns = vars(g)
     for t in trees:
         tried += 1
